@@ -226,6 +226,24 @@ def float_minmax(name):
     return h
 
 
+def float_minimum(name):
+    """IEEE 754-2019 minimum/maximum (`f64::minimum`, unstable): NaN if either operand is NaN, else min/max"""
+    base = float_minmax(name)
+
+    def h(m, ref, args, t, sp):
+        a, b = load(m, args[0]), load(m, args[1])
+        if is_float(a) and is_float(b):
+            for v in (a, b):
+                if F.is_lit(v):
+                    if F.is_nan_lit(v):
+                        return F.NAN
+                elif m.truth(("isnan", v), sp, "minimum"):
+                    return F.NAN
+            return base(m, ref, [a, b], t, sp)
+        return ("opq", m.new_name(name))
+    return h
+
+
 def float_is_nan(m, ref, args, t, sp):
     v = load(m, args[0])
     if is_float(v):
@@ -825,6 +843,50 @@ def iter_for_each(m, ref, args, t, sp):
     return UNIT
 
 
+def _try_ctor(m, clo):
+    """(continue-constructor, is-break) of the Try type a closure returns: Result, Option or ControlFlow"""
+    v = clo
+    if isinstance(v, VRef):
+        v = m.read_loc(v.cell, v.path)
+    f = m.db.fns.get(v.path) if isinstance(v, VStruct) else None
+    ty = f["locals"][0]["ty"] if f is not None else None
+    path = ty.get("path") if isinstance(ty, dict) else None
+    if path == RESULT:
+        return ok, (lambda r: r.variant == 1)
+    if path == OPTION:
+        return some, (lambda r: r.variant == 0)
+    if path == CONTROL_FLOW:
+        return (lambda x: VStruct(CONTROL_FLOW, 0, [x], ["0"], "Continue")), (lambda r: r.variant == 1)
+    raise Unsupported("try_for_each/try_fold with a closure returning %r" % (ty,))
+
+
+def iter_try_for_each(m, ref, args, t, sp):
+    """Iterator::try_for_each: call f on each item until it returns a residual (Err / None / Break)"""
+    it = iter_of(m, load(m, args[0]) if isinstance(args[0], VRef) else args[0], sp)
+    cont, is_break = _try_ctor(m, args[1])
+    for x in pull(m, it, sp, closure_arg_ty(m, args[1], 0)):
+        r = m.call_closure(args[1], [x], sp)
+        if not isinstance(r, VStruct):
+            raise Unsupported("try_for_each closure result")
+        if is_break(r):
+            return r
+    return cont(UNIT)
+
+
+def iter_try_fold(m, ref, args, t, sp):
+    it = iter_of(m, load(m, args[0]) if isinstance(args[0], VRef) else args[0], sp)
+    cont, is_break = _try_ctor(m, args[2])
+    acc = args[1]
+    for x in pull(m, it, sp, closure_arg_ty(m, args[2], 1)):
+        r = m.call_closure(args[2], [acc, x], sp)
+        if not isinstance(r, VStruct):
+            raise Unsupported("try_fold closure result")
+        if is_break(r):
+            return r
+        acc = r.fields[0]
+    return cont(acc)
+
+
 def iter_fold(m, ref, args, t, sp):
     it = iter_of(m, args[0], sp) if not isinstance(args[0], VStruct) else args[0]
     acc = args[1]
@@ -1044,7 +1106,17 @@ def mem_take(m, ref, args, t, sp):
 
 # rayon: the parallel pipeline is not executed; R-RAYON inspects the closures handed over.
 def rayon_into_par_iter(m, ref, args, t, sp):
+    if isinstance(args[0], VModel) and args[0].kind == "par_iter":
+        return args[0]          # a ParallelIterator is its own IntoParallelIterator
     return VModel("par_iter", src=args[0])
+
+
+def rayon_copied(m, ref, args, t, sp):
+    """`.copied()` / `.cloned()` of a parallel iterator over `&f64`: the same items, by value"""
+    inner = args[0]
+    if isinstance(inner, VModel) and inner.kind == "par_iter" and not inner.st.get("deref"):
+        return VModel("par_iter", src=inner.st["src"], deref=True)
+    raise Unsupported("copied() of %r" % (inner,))
 
 
 def rayon_fold(m, ref, args, t, sp):
@@ -1070,6 +1142,8 @@ BY_NAME = {
     "core::f64::<impl f64>::is_infinite": float_is_infinite,
     "core::f64::<impl f64>::abs": float_fn1("abs"),
     "core::f64::<impl f64>::min": float_minmax("min"),
+    "core::f64::<impl f64>::minimum": float_minimum("min"),
+    "core::f64::<impl f64>::maximum": float_minimum("max"),
     "core::f64::<impl f64>::max": float_minmax("max"),
     "core::f64::<impl f64>::signum": float_signum,
     "std::f64::<impl f64>::ceil": float_fn1("ceil"),
@@ -1104,6 +1178,8 @@ BY_NAME = {
     "rayon::iter::ParallelIterator::reduce": rayon_reduce,
     "rayon::iter::ParallelIterator::fold": rayon_fold,
     "rayon::iter::IntoParallelIterator::into_par_iter": rayon_into_par_iter,
+    "rayon::iter::ParallelIterator::copied": rayon_copied,
+    "rayon::iter::ParallelIterator::cloned": rayon_copied,
 }
 
 BY_TRAIT = {
@@ -1136,6 +1212,8 @@ BY_TRAIT = {
     ("core::iter::traits::iterator::Iterator", "sum"): iter_sum,
     ("core::iter::traits::iterator::Iterator", "size_hint"): iter_size_hint,
     ("core::iter::traits::iterator::Iterator", "for_each"): iter_for_each,
+    ("core::iter::traits::iterator::Iterator", "try_for_each"): iter_try_for_each,
+    ("core::iter::traits::iterator::Iterator", "try_fold"): iter_try_fold,
     ("core::iter::traits::iterator::Iterator", "fold"): iter_fold,
     ("core::iter::traits::iterator::Iterator", "count"): iter_count,
     ("core::ops::index::Index", "index"): index_call(False),
@@ -1149,6 +1227,8 @@ BY_TRAIT = {
     ("core::ops::arith::Div", "div"): arith_ref("Div"),
     ("core::default::Default", "default"): default_default,
     ("rayon::iter::IntoParallelIterator", "into_par_iter"): rayon_into_par_iter,
+    ("rayon::iter::ParallelIterator", "copied"): rayon_copied,
+    ("rayon::iter::ParallelIterator", "cloned"): rayon_copied,
     ("rayon::iter::ParallelIterator", "fold"): rayon_fold,
     ("rayon::iter::ParallelIterator", "reduce"): rayon_reduce,
 }
